@@ -31,9 +31,11 @@ type Scenario struct {
 	RealDone []string
 	// Live: liveness scenario - explored under rt's DonePriority restriction; an execution that runs into the
 	// horizon is a violation (Check is called with o.Horizon set) instead of an inconclusive run
-	Live   bool
-	Sym    bool // sibling library goroutines (workers of one fork stage) are interchangeable
-	Sample any  // printable description of the configuration
+	Live bool
+	// Deviations: Bound counts deviations from the default schedule (preemptions and non-default select arms / partners)
+	Deviations bool
+	Sym        bool // sibling library goroutines (workers of one fork stage) are interchangeable
+	Sample     any  // printable description of the configuration
 	// Nontrivial reports whether the explored scenario is non-trivial given the number of distinct outcomes
 	Nontrivial func(outcomes, executions, states int) bool
 	// Count lets the scenario add counters from each terminal state
@@ -69,6 +71,7 @@ func (s *Scenario) explorer(deadline time.Time, counters, maxima map[string]int)
 			x.PoolLIFO = s.PoolLIFO
 			x.Symmetry = s.Sym
 			x.DonePriority = s.Live
+			x.ArmCost = s.Deviations
 			if s.Live {
 				x.Horizon = 400
 			}
